@@ -305,11 +305,15 @@ def rules(rep, m):
         fx = FuncCtx(m, f)
         rm = [c for c in walk(f.body) if c["kind"] == "CallExpr" and callee_ref(c) in ("cmi_hashheap_cancel", "cmi_hashheap_remove")]
         sc = [c for c in walk(f.body) if c["kind"] == "CallExpr" and callee_ref(c) == "cmb_event_schedule"]
-        good = len(rm) == 1 and [fx.canon(z) for z in kids(rm[0])[1:]] == [f.params[0]["name"], f.params[1]["name"]]
+        good = len(rm) == 1 and common.same_object(m, fx.canon(kids(rm[0])[1]), f.params[0]["name"]) and \
+            fx.canon(kids(rm[0])[2]) == f.params[1]["name"]
         if wake:
+            # the wake-up is sent only if the process was in the queue (membership test or the removal's result)
+            member = good and len(sc) == 1 and any(
+                not cd.startswith("!") and re.search(r"cmi_hashheap_(is_enqueued|cancel|remove)\(", cd)
+                for cd in inv.dominating_conditions(fx, f, sc[0]))
             good = good and len(sc) == 1 and fx.canon(kids(sc[0])[2]) == f.params[1]["name"] and \
-                common.sigval(fx.canon(kids(sc[0])[3])) == SIG["CMB_PROCESS_CANCELLED"] and \
-                any(any(z is sc[0] for z in walk(x)) for x in walk(f.body) if x["kind"] == "IfStmt")
+                common.sigval(fx.canon(kids(sc[0])[3])) == SIG["CMB_PROCESS_CANCELLED"] and member
         else:
             good = good and not sc
         r5.instance("%s removes the named process%s: %s" % (fn, " and wakes it with CANCELLED" if wake else
